@@ -301,7 +301,7 @@ def run(ctx, res):
 
     # ---- built-in tensors and random orthorhombic tensors, crystal frame + rotated frames
     n_rot = 3 if not thorough else 25
-    n_ortho = 4 if not thorough else 60
+    n_ortho = 8 if not thorough else 60
     bases = [("olivine", special("olivine", rng)), ("enstatite", special("enstatite", rng))]
     bases += [("orthorhombic", orthorhombic(rng)) for _ in range(n_ortho)]
     for name, M0 in bases:
@@ -326,7 +326,7 @@ def run(ctx, res):
                         "tetr": float(out0["percent_tetragonal"]), "ortho": float(out0["percent_orthorhombic"]),
                         "axis": out0["hexagonal_axis"].tolist()})
     # ---- Voigt averages of textures, two frames
-    n_tex = 6 if not thorough else 120
+    n_tex = 10 if not thorough else 120
     for k in range(n_tex):
         M0, kind = random_texture_average(rng, int(rng.integers(3, 40)))
         out0, calls0, idx0 = submit(M0, f"texture:{kind}/frame0")
@@ -338,14 +338,20 @@ def run(ctx, res):
         cond = conditioned(M0, calls0) and conditioned(Mq, calls_q)
         pending_frames.append((f"texture/{kind}", M0, Q, out0, out_q, idx0, idx_q, None, cond))
     # ---- special symmetry classes, triclinic, non-symmetric input: correspondence + scalar clauses
-    for kind in ["isotropic", "cubic", "hexagonal", "tetragonal", "triclinic", "triclinic"] * (1 if not thorough else 6):
+    for kind in ["isotropic", "cubic", "hexagonal", "tetragonal", "triclinic", "triclinic", "hexagonal"] * (1 if not thorough else 6):
         M = special(kind, rng)
+        Q = np.eye(3)
         if kind in ("hexagonal", "tetragonal") and rng.random() < 0.7:
-            M = rotate6(M, T11.random_rotation(rng))
-        submit(M, f"special:{kind}")
-        res.count("input:special:" + kind)
-        if kind != "isotropic":
-            res.nontrivial((kind, M.tobytes()))
+            Q = T11.random_rotation(rng)
+            M = rotate6(M, Q)
+        out, _, _ = submit(M, f"special:{kind}")
+        if kind == "hexagonal":
+            # a transversely isotropic tensor: the reported axis is its symmetry axis (well conditioned: the axial
+            # eigenvalue is simple) and hexagonal symmetry accounts for all of the anisotropy
+            ax = out["hexagonal_axis"]
+            if min(np.abs(ax - Q[:, 2]).max(), np.abs(ax + Q[:, 2]).max()) > 1e-6:
+                res.violation("hex:axis", f"hexagonal axis {ax.tolist()} of a transversely isotropic tensor with axis {Q[:, 2].tolist()}",
+                              {"kind": "matrix", "M": M.tolist(), "case": "hexagonal"})
     for k in range(3 if not thorough else 20):
         M = special("olivine", rng) + np.tril(rng.normal(size=(6, 6)) * 50, -1)  # junk below the diagonal is ignored
         out, _, _ = submit(M, "nonsymmetric_lower_junk")
@@ -357,6 +363,7 @@ def run(ctx, res):
     # ---- correspondence with the model (given the recorded eigenvectors)
     outs = C.run_driver(lines)
     tie = {}
+    stats = {"max_nonorth": 0.0, "max_pyth_gap": 0.0}
     for tag, M, out, calls, idx in meta:
         toks = outs[idx].split()
         vals = C.hs2f(toks[:15])
@@ -368,6 +375,14 @@ def run(ctx, res):
         # inputs handed to eigh
         ein = C.hs2f(outs[idx + 1].split())
         ok = ok and C.close(ein, list(calls[0][0].ravel()) + list(calls[1][0].ravel()), scale=s)
+        S = np.array(vals[6:15]).reshape(3, 3)
+        nonorth = float(np.abs(S.T @ S - np.eye(3)).max())
+        if nonorth > 1e-6:
+            res.count("observed:sccs_not_orthogonal")
+            ss = sum(float(out[k]) ** 2 for k in CLASSES)
+            gap = abs(np.sqrt(ss) - out["percent_anisotropy"])
+            stats["max_nonorth"] = max(stats["max_nonorth"], nonorth)
+            stats["max_pyth_gap"] = max(stats["max_pyth_gap"], float(gap))
         sd = sorted(deltas)
         is_tie = (sd[1] - sd[0]) <= 1e-6 * max(1.0, sd[0]) or angles_to_threshold(calls) < 1e-3
         tie[idx] = is_tie
@@ -395,6 +410,9 @@ def run(ctx, res):
         if Mortho is not None and wc:
             check_orthorhombic(res, Mortho, Q, out_q, tag)
     res.notes.append(f"largest eigh-specification residual seen (relative): {worst_eigh:.3e}")
+    res.notes.append("observation (outside C12's quantifier, not a violation): the symmetry coordinate system built by the pairing loop is "
+                     f"not orthogonal for non-orthorhombic inputs (max |S^T S - 1| = {stats['max_nonorth']:.3g}); there the class percentages do "
+                     f"not add up in quadrature to the percent anisotropy (max gap {stats['max_pyth_gap']:.3g} percentage points)")
     if worst_eigh > 1e-9:
         res.mismatch("scipy.linalg.eigh specification", "assumed eigh spec not met", worst_eigh, 0.0)
     # smallest_angle kernel
